@@ -1677,6 +1677,7 @@ static bool ts_query__analyze_patterns(TSQuery *self, unsigned *error_offset) {
 
     bool has_children = false;
     bool is_wildcard = step->symbol == WILDCARD_SYMBOL;
+    bool is_unanalyzed = is_wildcard || step->symbol == ts_builtin_sym_error;
     step->contains_captures = step->capture_ids[0] != NONE;
     for (unsigned j = i + 1; j < self->steps.size; j++) {
       QueryStep *next_step = array_get(&self->steps, j);
@@ -1687,10 +1688,10 @@ static bool ts_query__analyze_patterns(TSQuery *self, unsigned *error_offset) {
       if (next_step->capture_ids[0] != NONE) {
         step->contains_captures = true;
       }
-      if (!is_wildcard) {
-        next_step->root_pattern_guaranteed = true;
-        next_step->parent_pattern_guaranteed = true;
-      }
+      // The children of wildcard and `ERROR` patterns are not analyzed below, so nothing is
+      // known about whether they will match.
+      next_step->root_pattern_guaranteed = !is_unanalyzed;
+      next_step->parent_pattern_guaranteed = !is_unanalyzed;
       has_children = true;
     }
 
@@ -2046,6 +2047,30 @@ static bool ts_query__analyze_patterns(TSQuery *self, unsigned *error_offset) {
           break;
         }
       }
+    }
+  }
+
+  // A step is only guaranteed within its parent pattern if its subsequent sibling steps and
+  // its own child steps are. So if a step is fallible, then so are its preceding siblings,
+  // the step that contains it, that step's preceding siblings, and so on.
+  for (unsigned i = self->steps.size; i > 1; i--) {
+    QueryStep *step = array_get(&self->steps, i - 1);
+    if (
+      step->depth == PATTERN_DONE_MARKER ||
+      step->depth == 0 ||
+      step->is_dead_end ||
+      step->parent_pattern_guaranteed
+    ) continue;
+    uint16_t depth = step->depth;
+    for (unsigned k = i - 1; k > 0; k--) {
+      QueryStep *preceding_step = array_get(&self->steps, k - 1);
+      if (preceding_step->depth == PATTERN_DONE_MARKER) break;
+      if (preceding_step->depth > depth) continue;
+      if (!preceding_step->is_dead_end) {
+        preceding_step->parent_pattern_guaranteed = false;
+      }
+      depth = preceding_step->depth;
+      if (depth == 0) break;
     }
   }
 
